@@ -37,7 +37,7 @@ pub struct ValObs {
     pub nested: Dump,
 }
 
-pub trait NestedVal: map::Val<A> + CvRDT + PartialEq + std::fmt::Debug {
+pub trait NestedVal: map::Val<A> + CvRDT + PartialEq + std::fmt::Debug + serde::Serialize {
     const DEPTH: usize;
     const LEAF_REG: bool;
     /// draw a random nested command for a value of this type
@@ -237,6 +237,9 @@ impl Sut for OS {
     fn reset_remove_c(&mut self, c: &Clk) {
         self.reset_remove(&mkvc(c))
     }
+    fn inject_future_remove(&mut self, ctx: &Clk, target: u8) {
+        self.apply(orswot::Op::Rm { clock: mkvc(ctx), members: vec![target] });
+    }
     fn next_dot(&self, actor: A) -> Option<(DotT, Clk, Clk)> {
         Some(derive(self.read_ctx(), actor).1)
     }
@@ -333,6 +336,10 @@ impl Sut for MV {
 }
 
 // ---------------- Map (any depth) ----------------
+fn same_val<V: serde::Serialize>(a: &V, b: &V) -> bool {
+    std::ptr::eq(a, b) || crate::dump::dump_norm(a) == crate::dump::dump_norm(b)
+}
+
 fn map_obs<V: NestedVal>(m: &Map<u8, V, A>, inc: &mut Option<String>) -> (ValObs, Clk, Clk)
 where
     V: Clone,
@@ -374,12 +381,13 @@ where
             *inc = Some(format!("Map iter() item {k} disagrees with keys()"));
         }
         if let Some(vv) = vals.get(i) {
-            if vc(&vv.rm_clock) != w || vv.val != v || vc(&vv.add_clock) != add {
+            // values are compared through their dumps: the observation record must not depend on the crate's own `==`
+            if vc(&vv.rm_clock) != w || !same_val(vv.val, v) || vc(&vv.add_clock) != add {
                 *inc = Some(format!("Map values() item {i} disagrees with iter()"));
             }
         }
         let g = m.get(k);
-        if g.val.as_ref() != Some(v) || vc(&g.rm_clock) != w || vc(&g.add_clock) != add {
+        if !g.val.as_ref().map(|x| same_val(x, v)).unwrap_or(false) || vc(&g.rm_clock) != w || vc(&g.add_clock) != add {
             *inc = Some(format!("Map get({k}) disagrees with iter()"));
         }
         let vo = v.obs(inc);
@@ -561,6 +569,9 @@ macro_rules! impl_map_sut {
             }
             fn reset_remove_c(&mut self, c: &Clk) {
                 self.reset_remove(&mkvc(c))
+            }
+            fn inject_future_remove(&mut self, ctx: &Clk, target: u8) {
+                self.apply(map::Op::Rm { clock: mkvc(ctx), keyset: [target].into_iter().collect() });
             }
             fn next_dot(&self, actor: A) -> Option<(DotT, Clk, Clk)> {
                 Some(derive(self.read_ctx(), actor).1)
